@@ -45,6 +45,27 @@ def step (t : List String) : String :=
       let f := unhex hex
       " | ".intercalate (ks.map fun k => fmtRead (zygoRead (p == "1") (f.take k)))
     | none => "bad-op"
+  | ["zreadl", p, mia, hex] =>
+    match modelFrameSel.find? (fun q => q.1 == mia) with
+    | none => "bad-op"
+    | some (_, sel) =>
+      match zygoReadL (p == "1") sel (unhex hex) with
+      | none => "none"
+      | some (h, w, lat, wvl, vals, warned, ib, ih, iw, fr) =>
+        fmtRead (some (h, w, lat, wvl, vals, warned)) ++ s!" ; {ib} {ih} {iw} " ++ fmtList fmtFloat fr
+  | "ztruncl" :: p :: mia :: hex :: ks =>
+    match parseAll? parseNat? ks, modelFrameSel.find? (fun q => q.1 == mia) with
+    | some ks, some (_, sel) =>
+      let f := unhex hex
+      " | ".intercalate (ks.map fun k =>
+        match zygoReadL (p == "1") sel (f.take k) with
+        | none => "none"
+        | some (h, w, lat, wvl, vals, warned, _, _, _, _) => fmtRead (some (h, w, lat, wvl, vals, warned)))
+    | _, _ => "bad-op"
+  | ["cvpre", hex] =>
+    match cvPreamble ((unhex hex).map Char.ofNat) with
+    | none => "none"
+    | some (title, hdr, data) => s!"{hexOf (title.map Char.toNat)} {hexOf (hdr.map Char.toNat)} {data.length} ."
   | ["zmeta", hex] =>
     let f := unhex hex
     " ".intercalate ((table.filter (fun r => !r.isPad)).map fun r =>
